@@ -149,6 +149,31 @@ def sc_faults(rng, n, t, k):
     return {"name": "faults-%d-%d-%d" % (n, t, k), "n": n, "t": t, "backend": rng.choice(["memdb", "trimmed", "bolt"]), "steps": steps}
 
 
+def sc_long_partition(rng, n, t, k, mode):
+    """one node is cut off for several rounds (longer than the partial-cache window), then the partition heals:
+    the isolated node must catch up by sync and contribute again.  mode "blackhole": sync streams opened during
+    the partition stay open and silent (half-open connections) instead of failing."""
+    steps = [{"op": "startall"}]
+    now = 0
+    for r in range(3):
+        steps += _round_steps(10 * r, "random", "r%d" % (r + 1), live=True)
+    lone = rng.randrange(n)
+    rest = [i for i in range(n) if i != lone]
+    steps.append({"op": "partition", "parts": [[lone], rest], "mode": mode})
+    now = 20
+    for r in range(rng.randint(6, 8)):
+        now += 10
+        steps += _round_steps(now, "random", "cut")
+    steps.append({"op": "heal"})
+    for r in range(7):
+        now += 10
+        steps += [{"op": "advance", "node": -1, "to": now}, {"op": "deliverall", "order": "random"}]
+        for c in range(2, 10, 2):
+            steps += [{"op": "advance", "node": -1, "to": now + c}, {"op": "deliverall", "order": "random"}]
+    steps.append({"op": "quiesce", "label": "live-healed"})
+    return {"name": "longcut-%s-%d-%d-%d" % (mode or "drop", n, t, k), "n": n, "t": t, "steps": steps}
+
+
 def sc_clocks(rng, n, t, k):
     """uneven clocks: bursts, stalls longer than a period, per-node skew up to one period."""
     steps = [{"op": "startall"}]
@@ -236,6 +261,23 @@ def sc_reshare_early(rng, k):
     return {"name": "reshare-early-%d" % k, "n": 3, "t": 2, "steps": steps}
 
 
+def sc_reshare_late(rng, k):
+    """the resharing result is registered (TransitionNewGroup) only after the node already stored the last
+    pre-transition round, but before the transition time: the vault must still switch on the next stored
+    beacon and the new group must keep producing."""
+    steps = [{"op": "startall"}]
+    for r in range(3):
+        steps += _round_steps(10 * r, "random", "r%d" % (r + 1))
+    steps.append({"op": "advance", "node": -1, "to": 25})
+    steps.append({"op": "reshare", "nodes": [0, 1, 2], "t": rng.choice([2, 3]), "round": 4})
+    for r in range(3, 9):
+        steps += _round_steps(10 * r, "random", "r%d" % (r + 1))
+        for c in (2, 4, 6, 8):
+            steps += [{"op": "advance", "node": -1, "to": 10 * r + c}, {"op": "deliverall", "order": "random"}]
+    steps.append({"op": "quiesce", "label": "live-after-late-reshare"})
+    return {"name": "reshare-late-%d" % k, "n": 3, "t": 2, "steps": steps}
+
+
 # ----------------------------------------------------------------------------- TLC behaviours -> scripts
 
 UNIT = 2  # seconds per model time unit (= catch-up period); P = 2 units => period 4 s
@@ -310,6 +352,11 @@ def scenarios_for(ctx, prop):
             n, t = rng.choice([(3, 2), (4, 3)])
             out.append(sc_faults(rng, n, t, k))
         out.append(sc_reshare(rng, rng.choice(["add1", "replace1", "tup"]), 0))
+    if prop == "C05":
+        for k in range(1 if q else 6):
+            n, t = rng.choice([(3, 2), (4, 3), (5, 3)])
+            out.append(sc_long_partition(rng, n, t, k, ""))
+            out.append(sc_long_partition(rng, n, t, k, "blackhole"))
     if prop in ("C02", "C05", "C01"):
         for k in range(3 if q else 24):
             n, t = rng.choice([(3, 2), (4, 3), (5, 3)])
@@ -323,6 +370,7 @@ def scenarios_for(ctx, prop):
         for k, sh in enumerate(shapes if not q else rng.sample(shapes, 3)):
             out.append(sc_reshare(rng, sh, k))
         out.append(sc_reshare_early(rng, 0))
+        out.append(sc_reshare_late(rng, 0))
     if prop in ("C01", "C03"):
         out.append(sc_reshare_early(rng, 0))
     return out
